@@ -16,5 +16,10 @@ func VerifC07_Quorum() {
 		zzverif.Assert(q <= n, "at-most-n")
 		zzverif.Assert(3*(2*q-n) > n, "two-quorums-share-more-than-a-third")
 	}
+	// the contracts APPLY the threshold as the node does: a VAA with s signatures passes the contract's count test exactly
+	// when the node would consider it complete (s >= q)
+	s := uint64(zzverif.U8("s"))
+	zzverif.Assert(verifSolRejects(s, uint64(n)) == (s < uint64(q)), "solidity-applies-the-node-threshold")
+	zzverif.Assert(verifRalAccepts(s, uint64(n)) == (s >= uint64(q)), "ralph-applies-the-node-threshold")
 	zzverif.Reach("end")
 }
